@@ -23,8 +23,8 @@ def bounded(tier, seed):
 
 MANIFEST = dict(
     category="other",
-    text="Contract-based proof of the structural clause of safe_paths.process_edge + bounded stand-in (labelled bounded): executable contracts 'safe', 'pairwise incompatible', 'zero-fix sound' evaluated on the real functions over an exhaustive small universe against an exact safety oracle.",
+    text="Contract-based proof of the structural clause of safe_paths.process_edge + bounded stand-in (labelled bounded): executable contracts 'safe', 'pairwise incompatible', 'zero-fix sound' evaluated on the real functions over an exhaustive small universe (incl. option combinations, graphs extended in place, interval flows) against an exact safety oracle.",
     design_ref="DESIGN.md section 3 / C06",
-    note='NOT proved; no obligation is counted as discharged for this property.',
-    technique='bounded runtime-contract check vs exact product-automaton safety oracle (stand-in for a contract proof)',
+    note='Only process_edge is under contract; the safe-sequence / dominator algorithms and the pruning are decided by the bounded stand-in.',
+    technique='contract-based deductive verification of one helper (PyVC) + bounded runtime-contract check vs exact product-automaton safety oracle',
     engine='rc')
